@@ -100,6 +100,46 @@ Example C02_pinned_workload_now :
     = [Some [ScOOk b#"A"]; Some [ScOOk b#"C"]].
 Proof. exact sc_pinned_workload_now. Qed.
 
+(* Phases. A workload may consist of phases separated by moments in which no call is running and template files
+   are rewritten (with a later modification time). Within a phase sources do not change. Each phase runs on the
+   engine as the phases before left it; sc_phase_start_ok w sh says that this state is a good start for the
+   world as it is now: every cached entry is current, or is left over from before its file changed and is read
+   again by every Load that meets it (caching off, or auto-reload on with a timestamp-aware loader reporting a
+   later time). Then every complete schedule of the phase gives the serial results of the phase: every call that
+   starts after the rewrite returns the new content. The fresh engine is a good start, and every phase ends in a
+   good start for its own world. Configurations in which a left-over entry keeps being served (caching on without
+   auto-reload, loaders without time stamps such as a ChainLoader) are outside this theorem; they are executed
+   and compared with the serial run by the runner. *)
+Theorem C02_phase_equals_serial :
+  forall fuel w sh threads sched order k,
+    sc_phase_start_ok w sh -> Forall (Forall (sc_call_consistent w)) threads ->
+    sc_complete (sc_run w sched (sc_phase_state fuel w sh threads)) = true ->
+    sc_complete (sc_run w (sc_serial_schedule order k) (sc_phase_state fuel w sh threads)) = true ->
+    sc_results (sc_run w sched (sc_phase_state fuel w sh threads))
+    = sc_results (sc_run w (sc_serial_schedule order k) (sc_phase_state fuel w sh threads)).
+Proof. exact C02_phase_equals_serial_proof. Qed.
+
+Theorem C02_first_phase_start_ok : forall w, sc_world_ok w -> sc_phase_start_ok w (sc_init_shared w).
+Proof. exact C02_first_phase_start_ok_proof. Qed.
+
+Theorem C02_phase_end_ok :
+  forall fuel w sh threads sched,
+    sc_phase_start_ok w sh -> Forall (Forall (sc_call_consistent w)) threads ->
+    sc_phase_start_ok w (st_sh (sc_run w sched (sc_phase_state fuel w sh threads))).
+Proof. exact C02_phase_end_ok_proof. Qed.
+
+(* a/t.twig cached in a first phase, its file rewritten with a later time stamp, auto-reload on: both goroutines of
+   the second phase get the new text on an interleaved schedule *)
+Example C02_phase_example :
+  sc_results (sc_run (sc_w_ph b#"new" 20) ([0; 1; 0; 1; 1; 0] ++ repeat 0 40 ++ repeat 1 40)
+                (sc_phase_state 5 (sc_w_ph b#"new" 20) sc_sh_ph [[ScCRender false b#"a/t.twig" []]; [ScCRender true b#"a/t.twig" []]]))
+  = [Some [ScOOk b#"new"]; Some [ScOOk b#"new"]].
+Proof. exact sc_phase_example. Qed.
+
+(* and the hypothesis of C02_phase_equals_serial holds there, through the left-over entry *)
+Example C02_phase_example_start_ok : sc_phase_start_ok (sc_w_ph b#"new" 20) sc_sh_ph.
+Proof. exact sc_phase_example_start_ok. Qed.
+
 Print Assumptions C02_any_schedule_equals_serial.
 Print Assumptions C02_finished_calls_equal_serial.
 Print Assumptions C02_serial_schedule_exists.
@@ -108,3 +148,6 @@ Print Assumptions C02_lock_table_disciplined.
 Print Assumptions C02_relative_names_private.
 Print Assumptions C02_tokenizer_owned.
 Print Assumptions C02_refuted_pinned.
+Print Assumptions C02_phase_equals_serial.
+Print Assumptions C02_first_phase_start_ok.
+Print Assumptions C02_phase_end_ok.
